@@ -381,4 +381,4 @@ def _worker(ctx, job):
 def run(ctx):
     quick = ctx.tier == "quick"
     versions = (4, 8, 13, 14, 15) if quick else tuple(range(4, 17))
-    ctx.parallel(_worker, [(100, versions)] * 16 if quick else [(12000, versions)] * 16)
+    ctx.parallel(_worker, [(350, versions)] * 16 if quick else [(12000, versions)] * 16)
